@@ -249,6 +249,17 @@ var Injectors = []injector{
 		nd := &Dir{ID: *ids, Kw: "GET", Params: []Param{textParam(np)}}
 		*ids++
 		nd.Children = []*Dir{{ID: *ids, Kw: "200", Params: []Param{bare("any")}}}
+		switch r.Intn(4) {
+		case 0:
+			// the offending directive is an URL without children
+			nd.Kw, nd.Children = "URL", nil
+		case 1:
+			// the path it collides with belongs to an URL without children, declared just before
+			*ids++
+			first := &Dir{ID: *ids, Kw: "URL", Params: []Param{textParam("/zz/{only}/x")}}
+			appendRoot(tree, first)
+			nd.Params = []Param{textParam("/zz/{onlyOther}/x")}
+		}
 		appendRoot(tree, nd)
 		return &Fault{Class: "similar-paths", Msg: []string{"the ambiguous paths are not allowed"}, DirID: nd.ID}
 	}},
@@ -526,6 +537,25 @@ var MacroInjectors = []injector{
 	}},
 	dropParams("MACRO", msgReqParam),
 	dropParams("PASTE", msgReqParam),
+	{"missing-parameter:PASTE", func(r Rnd, tree *[]*Dir, ids *int) *Fault {
+		// a PASTE without a name inside a MACRO body: of a macro that is used, or of one that nobody pastes
+		*ids++
+		nd := &Dir{ID: *ids, Kw: "PASTE"}
+		macros, _ := collect(*tree, func(d, p *Dir) bool { return d.Kw == "MACRO" && p == nil && len(d.Children) > 0 })
+		if len(macros) > 0 && chance(r, 2, 3) {
+			m := pick(r, macros)
+			at := r.Intn(len(m.Children) + 1)
+			nl := append([]*Dir(nil), m.Children[:at]...)
+			nl = append(nl, nd)
+			m.Children = append(nl, m.Children[at:]...)
+		} else {
+			*ids += 2
+			def := &Dir{ID: *ids - 1, Kw: "MACRO", Params: []Param{{Text: "@neverPasted", NoQuote: true}}, Explicit: "yes",
+				Children: []*Dir{{ID: *ids, Kw: "200", Params: []Param{bare("any")}}, nd}}
+			appendRoot(tree, def)
+		}
+		return &Fault{Class: "missing-parameter:PASTE", Msg: []string{msgReqParam}, DirID: nd.ID}
+	}},
 	forbidAnnotation("MACRO"),
 	forbidAnnotation("PASTE"),
 	{"empty:MACRO", func(r Rnd, tree *[]*Dir, ids *int) *Fault {
